@@ -22,6 +22,7 @@ import (
 	"verif/ev"
 	"verif/hist"
 	"verif/ringseek"
+	"verif/ringtyped"
 	"verif/sched"
 )
 
@@ -823,10 +824,19 @@ func main() {
 	}
 
 	r.Cases("bigcap", len(bigCaps), ev.Opt{Workers: 4, HangViolation: true}, bigCapCase)
+	// the same under processor counts that do not divide a power of two (work split "per CPU")
+	for _, p := range []string{"3", "5", "7"} {
+		r.CasesProc("bigcap/P"+p, len(bigCaps), ev.Opt{Procs: 2, HangViolation: true, Env: []string{"GOMAXPROCS=" + p}}, bigCapCase)
+	}
+	// element types other than int (nil interface values, nil pointers, "", zero-size, multi-word)
+	r.Cases("typed", r.N(4000, 80000), ev.Opt{HangViolation: true, MaxCaseSeconds: 60}, ringtyped.Case)
+	r.Require("typed_nil_elements_popped", 2000)
+	r.Require("typed_pipe_elements", 100000)
 	nctl := r.N(60000, 3000000)
 	r.CasesProc("ctl", nctl, ev.Opt{Bin: "shim", Procs: 14}, ctlCase)
 	if r.Thorough() || !seekOK {
-		r.Cases("honest-wrap", 6, ev.Opt{MaxCaseSeconds: 3000}, honestWrapCase)
+		// every case is 2^32 real push/pop pairs: no logging re-run, and only three rings in the quick tier
+		r.Cases("honest-wrap", r.N(3, 6), ev.Opt{MaxCaseSeconds: 3000, NoRerun: true, AlwaysLog: true}, honestWrapCase)
 	}
 	if r.Thorough() {
 		r.CasesProc("sweep", sweepN, ev.Opt{Bin: "shim", Procs: 14}, sweepCase)
